@@ -4,12 +4,12 @@ go 1.22.0
 
 require (
 	github.com/antlr4-go/antlr/v4 v4.13.1
+	github.com/expr-lang/expr v1.16.9
 	github.com/shivasurya/code-pathfinder/sourcecode-parser v0.0.0
 	github.com/smacker/go-tree-sitter v0.0.0-20240625050157-a31a98a7c0f6
 )
 
 require (
-	github.com/expr-lang/expr v1.16.9 // indirect
 	github.com/fatih/color v1.17.0 // indirect
 	github.com/google/uuid v1.6.0 // indirect
 	github.com/joho/godotenv v1.5.1 // indirect
